@@ -242,7 +242,7 @@ def write_fault(chk):
     for pv in (47, 340, 757):
         ids = proto.Ids(pv)
         for fault in faults:
-            for thr in (None, 64):
+            for thr, goodbye in ((None, True), (64, True), (None, False)):
                 pre = ([proto.frame(ids.set_compression, proto.varint(thr))] if thr is not None else []) + [proto.frame(ids.login_success, ids.b_login_success(), thr)]
                 first = b''.join(pre) + proto.frame(ids.keep_alive, ids.b_keep_alive(41), thr)
                 second = proto.frame(ids.play_disconnect, proto.string('{"text":"bye"}'), thr)
@@ -254,7 +254,7 @@ def write_fault(chk):
                 def send(self_, data, orig=orig_send):
                     nsend[0] += 1
                     if nsend[0] > 4:                  # handshake and login start are two sends each; the peer is gone afterwards
-                        if nsend[0] == 5:
+                        if nsend[0] == 5 and goodbye:
                             net.servers[0].chunks.append(second)      # its goodbye is readable from now on
                         raise fault
                     return orig(self_, data)
@@ -268,11 +268,18 @@ def write_fault(chk):
                 finally:
                     sim.SimSocket.send = orig_send
                     net.uninstall()
-                case = {'proto': pv, 'threshold': thr, 'write_error': '%s(errno %s)' % (type(fault).__name__, fault.errno)}
+                case = {'proto': pv, 'threshold': thr, 'write_error': '%s(errno %s)' % (type(fault).__name__, fault.errno), 'server_said_goodbye': goodbye}
                 chk.count('write-fault', case, True)
+                # the model's turn of the loop: an IOError held back; then the disconnect packet (or nothing) is read
+                m = run_model([('loop_turn', [[[fault.errno, True]], [[True, [], True]] if goodbye else []])])[0]
                 obs = {'disconnect_packet_delivered': seen == ['DisconnectPacket'], 'exits': len(exits), 'errors': [exn_name(e) for e in excs],
                        'recorded': None if conn.exception is None else exn_name(conn.exception), 'outcome': res[0][1] if isinstance(res[0][1], str) else 'raised:' + exn_name(res[0][1][1])}
-                exp = {'disconnect_packet_delivered': True, 'exits': 1, 'errors': [], 'recorded': None, 'outcome': 'exit'}
+                if m == [1]:
+                    exp = {'disconnect_packet_delivered': True, 'exits': 1, 'errors': [], 'recorded': None, 'outcome': 'exit'}
+                else:       # [2, errno]: the write error is what the thread ends with (reported through the handler, not re-raised)
+                    exp = {'disconnect_packet_delivered': False, 'exits': 0, 'errors': ['IOError'], 'recorded': 'IOError', 'outcome': 'exit'}
+                    if isinstance(conn.exception, OSError) and conn.exception.errno != m[1]:
+                        exp['recorded'] = 'the write error with errno %d' % m[1]
                 if obs != exp:
                     k = next(k for k in exp if obs[k] != exp[k])
                     chk.violation('write-fault', 'write-fault:%d:%s:%s' % (pv, type(fault).__name__, fault.errno), {'case': case, 'expected': exp, 'observed': obs},
